@@ -5,16 +5,22 @@
 
        sum over subsets I of {0..k-1} of (-1)^(k-|I|) * mu(I) * prod_{j not in I} m_j,   m_j = mu({j}).
 
-   Here this is proved to BE E[prod_j (Y_j - m_j)] for every normalised linear functional E on a
-   commutative algebra of "random variables" (no measure theory is needed: only linearity and E 1 = 1).
+   Here this is proved to BE E[prod_j (Y_j - m_j)] for every linear functional E on a commutative
+   algebra of "random variables" (no measure theory is needed: only linearity).  The normalisation
+   E 1 = 1 enters in exactly one place: the code takes the order-0 raw moment mu({}) to be the
+   constant 1 (lemma mu0, corollary central_from_raw_order0), and it is what makes the k = 1, 2, 3
+   formulas come out in their usual form.
 
    Contents
      central_from_raw             the inclusion-exclusion formula, any k
+     central_from_raw_order0      the same with the order-0 term written as the constant 1
+     shifted_from_raw             the same for an arbitrary centering vector
      central1, central2, central3 the formula written out for k = 1, 2, 3 over plain elements
      variance_from_raw            var = m2 - mean^2
      central_perm, cov_sym        symmetry under permutations of the variables
      quadratic_form_is_variance   x^T C x is the central second moment of sum_i x_i Y_i            *)
 From mathcomp Require Import all_ssreflect all_fingroup all_algebra.
+From mathcomp Require Import ring.
 
 Set Implicit Arguments.
 Unset Strict Implicit.
@@ -57,10 +63,6 @@ Definition m (j : 'I_k) : R := mu [set j].
 Lemma mE j : m j = E (Y j).
 Proof. by rewrite /m /mu big_set1. Qed.
 
-(* the library's centering formula *)
-Definition central_formula : R :=
-  \sum_(I : {set 'I_k}) (-1) ^+ (k - #|I|) * mu I * \prod_(j in ~: I) m j.
-
 (* product of binomials = sum over subsets *)
 Lemma prod_sub_subsets (c : 'I_k -> R) :
   \prod_(j < k) (Y j - (c j)%:A)
@@ -90,6 +92,21 @@ Theorem central_from_raw :
 Proof.
 rewrite prod_sub_subsets linear_sum /=; apply: eq_bigr => I _.
 by rewrite E_mul_algr -/(mu I) mulrAC.
+Qed.
+
+(* The code takes the order-0 raw moment to be the constant 1 (accumulate_uncentered 0 = ones):
+   this is where the normalisation E 1 = 1 enters. *)
+Lemma mu0 : mu set0 = 1.
+Proof. by rewrite /mu big_set0. Qed.
+
+Corollary central_from_raw_order0 :
+  E (\prod_(j < k) (Y j - (m j)%:A))
+  = (-1) ^+ k * \prod_(j < k) m j
+    + \sum_(I : {set 'I_k} | I != set0) (-1) ^+ (k - #|I|) * mu I * \prod_(j in ~: I) m j.
+Proof.
+rewrite central_from_raw (bigD1 set0) //=; congr (_ + _).
+rewrite cards0 subn0 mu0 mulr1; congr (_ * _).
+by apply: eq_bigl => j; rewrite !inE.
 Qed.
 
 (* the same with an arbitrary centering vector c (the code uses c = m) *)
@@ -146,19 +163,10 @@ Proof.
 rewrite E_mul_center central2.
 have -> : (Y0 - (E Y0)%:A) * (Y1 - (E Y1)%:A) * Y2
         = Y0 * Y1 * Y2 - (E Y1)%:A * (Y0 * Y2) - (E Y0)%:A * (Y1 * Y2)
-          + (E Y0 * E Y1)%:A * Y2.
-  rewrite mulrBl mulrBr mulrBr !mulrBl rmorphM /=.
-  rewrite -[Y0 * (E Y1)%:A * Y2]mulrA [(E Y1)%:A * Y2]mulrC.
-  rewrite [Y0 * (Y2 * _)]mulrA [Y0 * Y2 * _]mulrC !mulrA.
-  by rewrite opprB addrA.
+          + (E Y0)%:A * ((E Y1)%:A * Y2).
+  by move: ((E Y0)%:A) ((E Y1)%:A) => u v; ring.
 rewrite linearD /= !linearB /= !E_mul_algl.
-set a := E Y0; set b := E Y1; set c := E Y2.
-set e12 := E (Y1 * Y2); set e02 := E (Y0 * Y2); set e01 := E (Y0 * Y1).
-rewrite mulrBr opprB -!addrA; congr (_ + _).
-rewrite [- (b * e02) + _]addrCA; congr (_ + _); congr (_ + _).
-rewrite addrCA; congr (_ + _).
-rewrite mulr2n !mulrDl mul1r mulrCA !mulrA.
-by rewrite [c * a]mulrC.
+move: (E (Y0 * Y1 * Y2) : R) (E (Y0 * Y2) : R) (E (Y1 * Y2) : R) (E (Y0 * Y1) : R) (E Y0 : R) (E Y1 : R) (E Y2 : R) => e012 e02 e12 e01 a b c; ring.
 Qed.
 
 (* ------------------------------------------------------------------ *)
@@ -183,8 +191,8 @@ Let Z : A := \sum_i x i *: Y i.
 Lemma centered_combination :
   Z - (E Z)%:A = \sum_i x i *: (Y i - (E (Y i))%:A).
 Proof.
-rewrite /Z linear_sum /= rmorph_sum /= -sumrB; apply: eq_bigr => i _.
-by rewrite linearZ /= scalerBr -[(x i * _)%:A]scalerA.
+rewrite /Z linear_sum /= -in_algE rmorph_sum /= -sumrB; apply: eq_bigr => i _.
+by rewrite [E _]linearZ /= scalerBr -scalerA.
 Qed.
 
 Theorem quadratic_form_is_variance :
@@ -199,7 +207,20 @@ End Gram.
 
 End CentralMoments.
 
+(* {scalar A} is {linear A -> R^o | *%R}; every {linear A -> R^o} is one (the two scalings are
+   convertible), so the theorems apply verbatim to E : {linear A -> R^o} *)
+Lemma central_from_raw_linear (R : comRingType) (A : comAlgType R) (E : {linear A -> R^o})
+      (k : nat) (Y : 'I_k -> A) :
+  let mu (I : {set 'I_k}) : R := E (\prod_(j in I) Y j) in
+  let m j := mu [set j] in
+  E (\prod_(j < k) (Y j - (m j)%:A))
+  = \sum_(I : {set 'I_k}) (-1) ^+ (k - #|I|) * mu I * \prod_(j in ~: I) m j.
+Proof. move=> mu m; exact: (@central_from_raw R A E k Y). Qed.
+
+
 Print Assumptions central_from_raw.
+Print Assumptions central_from_raw_order0.
+Print Assumptions central_from_raw_linear.
 Print Assumptions shifted_from_raw.
 Print Assumptions central_perm.
 Print Assumptions mu_perm.
